@@ -22,7 +22,7 @@ sys.path.insert(0, HERE)
 PROP = {
     'D1': 'C10', 'D2': 'C02', 'D3': 'C17', 'D4': 'C16', 'D5a': 'C19', 'D5b': 'C19', 'D5c': 'C19',
     'D6': 'C09', 'D7': 'C12', 'D9': 'C01', 'D10': 'C07', 'D11': 'C14', 'D13': 'C15', 'D14': 'C14',
-    'D15': 'C14', 'D16': 'C10', 'D17': 'C14', 'D23': 'C10',
+    'D15': 'C14', 'D16': 'C10', 'D17': 'C14', 'D23': 'C10', 'D24': 'C11',
 }
 
 
@@ -328,6 +328,46 @@ def D23():
     return any(v != 'returned [0, 2]' for v in out.values()), out
 
 
+def _nested(outer, inner):
+    from vtasks import NestedLab
+    import labtech
+    lab = labtech.Lab(storage=None, runner_backend=outer, max_workers=2)   # logger level left at its default
+    t = NestedLab(4, inner)
+    r = _run(lab, [t])
+    print('NESTED', r.get(t))
+
+
+def D24():
+    # run_tasks called from inside a task's run() in a worker process (default displays) must terminate
+    import signal
+    tmp = tempfile.mkdtemp(prefix='verif-d24-')
+    procs = []
+    for outer, inner in (('fork', 'serial'), ('spawn', 'fork'), ('serial', 'serial')):
+        f = open(os.path.join(tmp, f'{outer}-{inner}.out'), 'w')
+        procs.append((outer, inner, f, subprocess.Popen(
+            [sys.executable, os.path.abspath(__file__), '--nested', outer, inner], stdout=f, stderr=subprocess.DEVNULL,
+            stdin=subprocess.DEVNULL, start_new_session=True, env=os.environ)))
+    out = {}
+    deadline = time.time() + 25
+    for outer, inner, f, p in procs:
+        try:
+            p.wait(timeout=max(0.1, deadline - time.time()))
+            hung = False
+        except subprocess.TimeoutExpired:
+            hung = True
+        try:
+            os.killpg(p.pid, signal.SIGKILL)
+        except ProcessLookupError:
+            pass
+        p.wait()
+        f.close()
+        got = [l for l in open(f.name, errors='replace').read().splitlines() if l.startswith('NESTED')]
+        out[f'{outer}>{inner}'] = 'hang (no return within 25 s)' if hung else (got[-1] if got else f'exit {p.returncode}')
+    import shutil
+    shutil.rmtree(tmp, ignore_errors=True)
+    return any(v != 'NESTED 40' for v in out.values()), out
+
+
 def D17():
     # interrupt landing on `future.result()` inside ProcessRunner.wait
     from vtasks import Slow
@@ -353,7 +393,7 @@ def D13():
     return bool(miss), f'missing after unpickle: {miss}'
 
 
-ALL = ['D1', 'D2', 'D3', 'D4', 'D5a', 'D5b', 'D5c', 'D6', 'D7', 'D9', 'D10', 'D11', 'D13', 'D14', 'D15', 'D16', 'D17', 'D23']
+ALL = ['D1', 'D2', 'D3', 'D4', 'D5a', 'D5b', 'D5c', 'D6', 'D7', 'D9', 'D10', 'D11', 'D13', 'D14', 'D15', 'D16', 'D17', 'D23', 'D24']
 
 
 def run_one(name):
@@ -409,6 +449,10 @@ def run_many(names, timeout=60):
 if __name__ == '__main__':
     if len(sys.argv) >= 3 and sys.argv[1] == '--one':
         print(json.dumps(run_one(sys.argv[2])))
+        sys.stdout.flush()
+        sys.exit(0)
+    if len(sys.argv) >= 4 and sys.argv[1] == '--nested':
+        _nested(sys.argv[2], sys.argv[3])
         sys.stdout.flush()
         sys.exit(0)
     names = sys.argv[1:] or ALL
